@@ -181,6 +181,11 @@ def make_cells(r, kind):
     if kind == "pair-overlapping":
         d = r.uniform(8.7e-6, 9.1e-6)
         return [ico(2, 5e-6, (0, 0, 0)), ico(2, 5e-6, (d, r.uniform(2e-7, 6e-7), r.uniform(-3e-7, 3e-7)))]
+    if kind == "pair-unequal":
+        # different mesh densities in the contact zone: several nodes of the finer cell compete for one node of the coarser one,
+        # so couplings are overwritten and one-sided couplings arise in the search (removed by the symmetrisation loop)
+        d = r.uniform(8.6e-6, 9.0e-6)
+        return [ico(2, 5e-6, (0, 0, 0)), ico(2, 5e-6, (d, r.uniform(5e-7, 9e-7), r.uniform(3e-7, 6e-7)), (1.0, 1.1, 0.9), 0.1)]
     if kind == "pair-separate":
         d = r.uniform(1.06e-5, 1.12e-5)
         return [ico(2, 5e-6, (0, 0, 0)), ico(2, 5e-6, (d, 0, 0))]
@@ -203,13 +208,19 @@ def lmin_of(cells):
     return "7.5e-7" if cells[0][0] == 2 else "8.5e-7"
 
 
+BEND = {"bending_modulus": "2e-18", "angle_regularization_factor": "1e-16"}
+WIDE = {"contact_cutoff_adhesion": "1.2e-6"}       # couplings get overwritten in the search -> one-sided couplings for the symmetrisation loop
+
+
 def scenario_list(r, tier):
+    """(kind, iterations, overrides of the parameter file, iterations that must at least stay inside the modelled domain)"""
+    b = lambda: BEND if r.uniform(0, 1) < 0.5 else {}
     if tier == "thorough":
-        out = [("pair-touching", 60), ("pair-overlapping", 80), ("pair-separate", 30), ("triplet", 60), ("row-of-four", 50), ("small-pair", 120),
-               ("pair-overlapping", 120), ("triplet", 100)]
-    else:
-        out = [("pair-overlapping", 40), ("triplet", 24), ("small-pair", 60), (r.choice(["pair-touching", "row-of-four", "pair-separate"]), 20)]
-    return out
+        return [("pair-touching", 60, {}, 10), ("pair-overlapping", 80, {}, 10), ("pair-separate", 30, {}, 10), ("triplet", 60, b(), 10),
+                ("row-of-four", 50, {}, 10), ("small-pair", 120, b(), 10), ("pair-overlapping", 120, BEND, 10), ("triplet", 100, {}, 10),
+                ("pair-unequal", 8, WIDE, 1), ("pair-unequal", 8, WIDE, 1), ("pair-unequal", 60, {}, 10)]
+    return [("pair-overlapping", 40, {}, 10), ("triplet", 24, b(), 10), ("small-pair", 60, b(), 10), ("pair-unequal", 6, WIDE, 1),
+            (r.choice(["pair-touching", "row-of-four", "pair-separate"]), 20, {}, 10)]
 
 
 def write_tissue(wd, cells, shift=(0.0, 0.0, 0.0), overrides=None):
@@ -236,7 +247,7 @@ def prove_tissue():
 
 
 # ---------------------------------------------------------------- (1) model against the real solver
-def correspond(name, cells, iters, overrides, seed, stats, failures, disagreements):
+def correspond(name, cells, iters, overrides, seed, stats, failures, disagreements, need=10):
     args = {"scenario": name, "cells": [[c[0], c[1], list(c[2]), list(c[3]), c[4]] for c in cells], "iterations": iters, "overrides": overrides, "seed": seed, "part": "correspondence"}
     drv = vlib.driver_path(DRIVER)
     with SC.Workdir() as wd:
@@ -297,7 +308,7 @@ def correspond(name, cells, iters, overrides, seed, stats, failures, disagreemen
         disagreements.append(dict(args, iteration=real[upto]["iter"], field="model says stepOk although the real run left the domain (%s)" % left, real=left, model="stepOk true"))
     if left is not None:
         stats["left_domain"] = stats.get("left_domain", 0) + 1
-    if upto < min(10, iters):
+    if upto < min(need, iters):
         failures.append({"what": "scenario %s: the run leaves the modelled domain after %d iterations (%s)" % (name, upto, left)})
     dis, ncmp, worst = [], 0, 0
     for k in range(upto + 1):
@@ -368,6 +379,11 @@ def oracle(name, cells, iters, t, ratio, seed, stats, V):
                         V.fail_input("iteration %d, cell %d: %s %r vs %r in the translated run" % (sa["iter"], ci, nm, x, y), args)
                         return
             for k, (x, y) in enumerate(zip(ca["P"], cb["P"])):
+                if x == "-" or y == "-":
+                    if x != y:
+                        V.fail_input("iteration %d, cell %d: node slot %d is in use in one run only" % (sa["iter"], ci, k // 3), args)
+                        return
+                    continue
                 d = abs(vlib.unhex(y) - t[k % 3] - vlib.unhex(x))
                 worst = max(worst, d)
                 if d > tol:
@@ -376,8 +392,10 @@ def oracle(name, cells, iters, t, ratio, seed, stats, V):
                     return
             for key, nm, scale in (("M", "momentum", None), ("N", "node normal", 1.0)):
                 for k, (x, y) in enumerate(zip(ca[key], cb[key])):
+                    if x == "-" or y == "-":
+                        continue
                     xv, yv = vlib.unhex(x), vlib.unhex(y)
-                    sc = scale if scale is not None else max(abs(vlib.unhex(z)) for z in ca[key]) + 1e-300
+                    sc = scale if scale is not None else max(abs(vlib.unhex(z)) for z in ca[key] if z != "-") + 1e-300
                     if abs(xv - yv) > (1e-6 + 1e5 * tol_rel(ratio, iters)) * sc:
                         if sa["iter"] > STRICT_ITERS or ratio >= 30.0:
                             stats["oracle_late_divergences"] += 1
@@ -399,12 +417,9 @@ def run_tissue(V, tier, seed, stats):
             return stats
     r = vlib.Rng(seed).fork("c14-tissue")
     failures, disagreements = [], []
-    for (kind, iters) in scenario_list(r, tier):
+    for (kind, iters, ov, need) in scenario_list(r, tier):
         cells = make_cells(r, kind)
-        ov = {}
-        if kind in ("small-pair", "triplet") and r.uniform(0, 1) < 0.5:
-            ov = {"bending_modulus": "2e-18", "angle_regularization_factor": "1e-16"}
-        correspond(kind, cells, iters, ov, seed, stats, failures, disagreements)
+        correspond(kind, cells, iters, ov, seed, stats, failures, disagreements, need)
     for f in failures[:3]:
         if f.get("input") is not None:
             V.fail_input(f["what"], f["input"])
@@ -432,7 +447,9 @@ def run_tissue(V, tier, seed, stats):
 
 def replay(ctx):
     rp = ctx["replay"]
-    inp = rp.get("input", rp) if isinstance(rp, dict) else {}
+    inp = {}
+    if isinstance(rp, dict):
+        inp = (rp.get("failing_input") or {}).get("input") or rp.get("input") or rp
     print(json.dumps(rp, indent=1, default=str)[:3000])
     if not isinstance(inp, dict) or "cells" not in inp:
         print("re-run: VERIF_SEED=<seed of the replay> python3 tools/check.py C14")
